@@ -430,6 +430,23 @@ func evalPrepared(c *evalCase, p *prepared) (outcome, string, error) {
 	if berr != nil {
 		return judged, "", fmt.Errorf("BuildExpr(%q) rejected a valid expression: %v", c.Text, firstLine(berr.Error()))
 	}
+	if len(c.Text)%11 == 5 {
+		// another query just before, with bindings of its own: they are that query's, not the process's
+		pollute(p.root)
+	}
+	var owned *xsel.ContextSettings
+	var ownedSizes [3]int
+	if len(c.Text)%4 == 1 {
+		// the caller's own maps installed by a ContextApply of its own (as the command does), instead of the With* helpers
+		owned = &xsel.ContextSettings{NamespaceDecls: map[string]string{}, Variables: map[xsel.XmlName]xsel.Result{}, FunctionLibrary: map[xsel.XmlName]xsel.Function{}}
+		for _, a := range set {
+			a(owned)
+		}
+		ownedSizes = [3]int{len(owned.NamespaceDecls), len(owned.Variables), len(owned.FunctionLibrary)}
+		set = []xsel.ContextApply{func(cs *xsel.ContextSettings) {
+			cs.NamespaceDecls, cs.Variables, cs.FunctionLibrary = owned.NamespaceDecls, owned.Variables, owned.FunctionLibrary
+		}}
+	}
 	startCur := p.loc.ToCur[ctxNode]
 	viewed := len(c.Text)%7 == 3 && len(c.Funcs) == 0 && len(p.doc.All) <= 60
 	if viewed {
@@ -439,6 +456,10 @@ func evalPrepared(c *evalCase, p *prepared) (outcome, string, error) {
 	impl, implErr := safeExec(startCur, g, set...)
 	if pe, ok := implErr.(*panicError); ok {
 		return judged, "", fmt.Errorf("Exec(%q) panicked: %v", c.Text, pe.v)
+	}
+	if owned != nil && ownedSizes != [3]int{len(owned.NamespaceDecls), len(owned.Variables), len(owned.FunctionLibrary)} {
+		return judged, "", fmt.Errorf("Exec(%q) changed the caller's binding maps: %d namespaces, %d variables, %d functions before, %d, %d, %d after", c.Text,
+			ownedSizes[0], ownedSizes[1], ownedSizes[2], len(owned.NamespaceDecls), len(owned.Variables), len(owned.FunctionLibrary))
 	}
 	if viewed {
 		if implErr != nil && strings.Contains(implErr.Error(), "xpath query panic") {
@@ -558,4 +579,20 @@ func queryable(names []string) []string {
 		out = append(out, n)
 	}
 	return out
+}
+
+var pollutingQuery = func() *xsel.Grammar { g := xsel.MustBuildExpr("count(/) + $nope"); return &g }()
+
+// pollute runs a query that binds a user function under the name of every
+// core function, a prefix and a variable - for that query only.
+func pollute(root store.Cursor) {
+	garbage := func(xsel.Context, ...xsel.Result) (xsel.Result, error) { return xsel.String("leaked from another query"), nil }
+	set := []xsel.ContextApply{xsel.WithNS("zz", "urn:zz"), xsel.WithNS("p", "urn:leak"), xsel.WithNS("q", "urn:leak"), xsel.WithVariable("nope", xsel.Number(41)), xsel.WithVariableNS("urn:x", "nope", xsel.Number(42)),
+		xsel.WithFunction("nope", garbage), xsel.WithFunctionNS("urn:x", "nope", garbage), xsel.WithFunctionNS("urn:zz", "f", garbage)}
+	for _, name := range []string{"last", "position", "count", "local-name", "namespace-uri", "name", "string", "concat", "starts-with", "contains", "substring-before", "substring-after", "substring",
+		"string-length", "normalize-space", "translate", "boolean", "not", "true", "false", "lang", "number", "sum", "floor", "ceiling", "round"} {
+		set = append(set, xsel.WithFunction(name, garbage))
+	}
+	defer func() { recover() }()
+	xsel.Exec(root, pollutingQuery, set...)
 }
